@@ -3,6 +3,8 @@
 package cl
 
 import (
+	"math/big"
+
 	"github.com/ohler55/slip"
 )
 
@@ -17,9 +19,9 @@ func init() {
 			Name: "gcd",
 			Args: []*slip.DocArg{
 				{Name: "&rest"},
-				{Name: "integers", Type: "fixnum"},
+				{Name: "integers", Type: "integer"},
 			},
-			Return: "fixnum",
+			Return: "integer",
 			Text:   `__gcd__ returns the greatest common divisor of _integers_.`,
 			Examples: []string{
 				"(gcd) => 0",
@@ -38,9 +40,14 @@ type Gcd struct {
 func (f *Gcd) Call(s *slip.Scope, args slip.List, depth int) slip.Object {
 	z := slip.Fixnum(0)
 	for i, a := range args {
-		num, ok := a.(slip.Fixnum)
-		if !ok {
-			slip.TypePanic(s, depth, "integers", a, "fixnum")
+		var num slip.Fixnum
+		switch ta := a.(type) {
+		case slip.Fixnum:
+			num = ta
+		case *slip.Bignum:
+			return bigGcd(s, args, depth)
+		default:
+			slip.TypePanic(s, depth, "integers", a, "integer")
 		}
 		if num < 0 {
 			num = -num
@@ -52,6 +59,24 @@ func (f *Gcd) Call(s *slip.Scope, args slip.List, depth int) slip.Object {
 		}
 	}
 	return z
+}
+
+func bigGcd(s *slip.Scope, args slip.List, depth int) slip.Object {
+	var z big.Int
+	for _, a := range args {
+		switch ta := a.(type) {
+		case slip.Fixnum:
+			_ = z.GCD(nil, nil, &z, big.NewInt(int64(ta)))
+		case *slip.Bignum:
+			_ = z.GCD(nil, nil, &z, (*big.Int)(ta))
+		default:
+			slip.TypePanic(s, depth, "integers", a, "integer")
+		}
+	}
+	if z.IsInt64() {
+		return slip.Fixnum(z.Int64())
+	}
+	return (*slip.Bignum)(&z)
 }
 
 func gcd(x, y slip.Fixnum) slip.Fixnum {
